@@ -216,6 +216,9 @@ def run(ctx):
     rep.rule("C04.R2", "Frame time chain", 4)
     rep.rule("C04.R3", "offset dependence of the point kinematics family", 10)
     rep.rule("C04.R4", "RigidBody state slices and kinematic-equation kernel", 8)
+    rep.rule("C04.R12", "every memoised kinematic routine of the discrete bodies has its own cache object (two routines with one signature sharing a cache return each other's results)", 4)
+    from . import c26 as _c26b
+    _c26b.one_cache_per_method(ctx, "C04.R12", lambda rel: rel.startswith("cardillo/discrete/"))
     rep.rule("C04.R11", "a kinetic energy reported by a discrete body contracts the body-fixed inertia tensor with BODY-FIXED angular velocity components (K15 basis typing: A_IB @ B-vector is an I-vector)", 0)
     kinetic_energy_bases(ctx)
     rep.rule("C04.R5", "E_kin uses the mass data of M", 1)
@@ -403,4 +406,9 @@ MUTANTS += [
 ]
 NEUTRAL += [
     dict(id="c04-n-r11", canary=True, what="RigidBody gains E_kin = 1/2 m v.v + 1/2 B_Omega . B_Theta_C B_Omega", file='cardillo/discrete/rigid_body.py', old='    def B_Omega(self, t, q, u, xi=None):\n        return u[3:]\n', new='    def E_kin(self, t, q, u):\n        B_Omega = self.B_Omega(t, q, u)\n        return 0.5 * self.mass * (u[:3] @ u[:3]) + 0.5 * B_Omega @ self.B_Theta_C @ B_Omega\n\n    def B_Omega(self, t, q, u, xi=None):\n        return u[3:]\n'),
+]
+
+MUTANTS += [
+    dict(id="c04-r12-seed", canary=True, what="[seeded by sub-agent] RigidBody.v_P_q and kappa_P_q memoised 'like v_P', the decorator copy-pasted with the same cache object", file='cardillo/discrete/rigid_body.py',
+         edits=[('cardillo/discrete/rigid_body.py', '    def v_P_q(self, t, q, u, xi=None, B_r_CP=np.zeros(3, dtype=float)):\n', '    @cachedmethod(\n        lambda self: self.v_P_cache,\n        key=lambda self, t, q, u, xi=None, B_r_CP=np.zeros(3, dtype=float): hashkey(t, *q, *u, *B_r_CP),\n    )\n    def v_P_q(self, t, q, u, xi=None, B_r_CP=np.zeros(3, dtype=float)):\n'), ('cardillo/discrete/rigid_body.py', '    def kappa_P_q(self, t, q, u, xi=None, B_r_CP=np.zeros(3)):\n', '    @cachedmethod(\n        lambda self: self.v_P_cache,\n        key=lambda self, t, q, u, xi=None, B_r_CP=np.zeros(3, dtype=float): hashkey(t, *q, *u, *B_r_CP),\n    )\n    def kappa_P_q(self, t, q, u, xi=None, B_r_CP=np.zeros(3)):\n')], expect="C04.R12"),
 ]
